@@ -492,6 +492,9 @@ func (w *world) violation(kind, label, msg string, notCond *term) {
 // assert checks cond under the path condition.  If it can be false the path
 // ends as a violation with a model; otherwise execution continues.
 func (w *world) assert(cond value, label string) {
+	if w.skipLabel(label) {
+		return
+	}
 	switch c := cond.(type) {
 	case bool:
 		if !c {
@@ -516,6 +519,9 @@ func (w *world) assert(cond value, label string) {
 // reported as the known finding kf (if listed as known), failures outside it
 // are violations.
 func (w *world) assertKF(cond value, label, kf string, region value) {
+	if w.skipLabel(label) {
+		return
+	}
 	var ct, rt *term
 	switch c := cond.(type) {
 	case bool:
@@ -570,6 +576,16 @@ func (w *world) violationKF(label, kf string, t *term) {
 		}
 	}()
 	w.violation("assert", label, "assertion falsifiable inside region of "+kf+" which is not listed as known", t)
+}
+
+// skipLabel: an assertion labelled for another property ("Cnn...") is not
+// checked when the run is restricted to one property.
+func (w *world) skipLabel(label string) bool {
+	p := w.cfg.LabelPrefix
+	if p == "" || len(label) < 3 || label[0] != 'C' || label[1] < '0' || label[1] > '9' || label[2] < '0' || label[2] > '9' {
+		return false
+	}
+	return !strings.HasPrefix(label, p)
 }
 
 func truncate(s string, n int) string {
